@@ -15,9 +15,11 @@ def load(prop_id):
     return [f for f in doc.get('findings', []) if f['property'] == prop_id and f.get('status') == 'open']
 
 
-def match(findings, space, labels, path):
+def match(findings, space, labels, path, observed=None):
     for f in findings:
         m = f['match']
+        if 'observed' in m and (observed is None or not re.search(m['observed'], str(observed), re.S)):
+            continue
         if not re.fullmatch(m.get('space', '.*'), space):
             continue
         if not re.search(m.get('path', ''), path):
